@@ -913,7 +913,9 @@ class C01(core.Check):
         w, track = self._track[key]
         urwid.set_encoding(case.get("enc", "utf-8"))
         try:
-            enc = Encoder(min(track["maxw"], 120), track["boxcalls"])
+            if track["maxw"] > 160:
+                return None           # relative widths blown up by a fixed render: leaf tables would be huge; oracle only
+            enc = Encoder(track["maxw"], track["boxcalls"])
             ints = enc.node(w)
             if not enc.ok:
                 return None
